@@ -278,6 +278,10 @@ def atom_nonneg(a, strict, depth):
 
 
 def layout(ctx, R, N, loc):
+    mo = [e for e in R.I.trace if e.kind == "memory-order"]
+    ctx.ob("C01.layout", f"N={N}:packing follows the logical index order", not mo,
+           f"{[(e.data[0], e.data[1], e.loc) for e in mo[:3]]}: flattening in memory order ('K'/'A') scrambles the state vector for a snapshot that is not "
+           "C-contiguous (a transposed view, grain-last storage), while extract_vars unpacks in logical order" if mo else "", loc)
     s = R.solver
     if s is None:
         ctx.ob("C01.layout", f"N={N}", "inconclusive", "no LSODA constructor call was interpreted", loc)
